@@ -8,6 +8,7 @@ import (
 	"regexp"
 	"strconv"
 	"strings"
+	"syscall"
 	"testing"
 	"testing/synctest"
 	"time"
@@ -56,12 +57,15 @@ type RunOpt struct {
 	WithCtx bool
 	NoBubble bool
 	UseMakeCheck bool
+	OpenProbe    bool // see Interp.OpenProbe
+	FDHeadroom   int  // >0: while Check runs, the process may open only this many files more than are open at its start
 }
 
 // RunCheck executes rapid.Check(simTB, prog) inside a fresh synctest bubble with the given clock policy.
 func RunCheck(p *Prog, o RunOpt) *CheckRun {
 	w := NewWorld(o.Name, o.Clock, o.WithCtx)
 	in := NewInterp(w, p)
+	in.OpenProbe = o.OpenProbe
 	cr := &CheckRun{W: w, In: in, Prog: p, Flags: o.Flags, Clock: o.Clock, Name: o.Name, Dir: o.Dir}
 	old, _ := os.Getwd()
 	if err := os.Chdir(o.Dir); err != nil {
@@ -93,6 +97,9 @@ func RunCheck(p *Prog, o RunOpt) *CheckRun {
 			var tb rapid.TB = w.TB
 			if o.WithCtx {
 				tb = simTBCtx{w.TB}
+			}
+			if o.FDHeadroom > 0 {
+				defer lowerFDLimit(o.FDHeadroom)()
 			}
 			rapid.Check(tb, in.Prop)
 			w.StopWhy = "return"
@@ -410,4 +417,39 @@ func rapidFrames(st string) string {
 		}
 	}
 	return strings.Join(out, " < ")
+}
+
+// lowerFDLimit lowers the soft RLIMIT_NOFILE of the process to (descriptors open now + headroom) and returns the undo.
+func lowerFDLimit(headroom int) func() {
+	var old syscall.Rlimit
+	if err := syscall.Getrlimit(syscall.RLIMIT_NOFILE, &old); err != nil {
+		return func() {}
+	}
+	ents, err := os.ReadDir("/proc/self/fd")
+	if err != nil {
+		return func() {}
+	}
+	used := map[int]bool{}
+	for _, e := range ents {
+		if n, err := strconv.Atoi(e.Name()); err == nil {
+			used[n] = true
+		}
+	}
+	// the limit bounds the descriptor NUMBER: leave exactly `headroom` unused numbers below it
+	free, l := 0, 0
+	for free < headroom {
+		if !used[l] {
+			free++
+		}
+		l++
+	}
+	lim := old
+	lim.Cur = uint64(l)
+	if lim.Cur > old.Cur {
+		return func() {}
+	}
+	if err := syscall.Setrlimit(syscall.RLIMIT_NOFILE, &lim); err != nil {
+		return func() {}
+	}
+	return func() { _ = syscall.Setrlimit(syscall.RLIMIT_NOFILE, &old) }
 }
